@@ -483,6 +483,19 @@ def walk_no_nested(node):
         stack.extend(list(ast.iter_child_nodes(n))[::-1])
 
 
+_WALK_CACHE = {}
+
+
+def walk_cached(node):
+    """walk_no_nested as a cached list (the trees are immutable during a run)"""
+    k = id(node)
+    r = _WALK_CACHE.get(k)
+    if r is None or r[0] is not node:
+        r = (node, list(walk_no_nested(node)))
+        _WALK_CACHE[k] = r
+    return r[1]
+
+
 def calls_in(node, nested=True):
     it = ast.walk(node) if nested else walk_no_nested(node)
     for n in it:
